@@ -24,6 +24,10 @@ def concrete_event(e, style):
     lat = round(31 + r.random() * 12, r.choice([1, 2, 3, 4, 6]))
     mag = round(2.5 + r.random() * 5.5, r.choice([1, 2]))
     depth = round(r.random() * 40, r.choice([0, 1, 3]))
+    if e % 6 == 0:
+        # the ends of the coordinate ranges (the date line written as +180 and as -180, the poles)
+        lon = 180.0 if e % 12 else -180.0
+        lat = 90.0 if e % 12 else -90.0
     if e % 6 == 2:
         # an epicentre within metres of the equator / the prime meridian, a depth of a centimetre: repr() writes such values
         # in exponent notation (2.5e-05), like every general float writer
